@@ -42,7 +42,7 @@ ASSUMPTIONS = [
 ]
 BUDGET = {"quick": 45, "thorough": 420}
 NCASES = {"quick": 6000, "thorough": 120000}
-FLOORS = {'quick': {'case_held': 1500, 'helper_held': 300}, 'thorough': {'case_held': 15000, 'helper_held': 3000, 'suite:apply_algebra_lowering:held': 3000, 'suite:apply_algebra_lowering:held_and_changed': 500}}
+FLOORS = {'quick': {'case_held': 1500, 'helper_held': 300, 'convention_held': 150}, 'thorough': {'case_held': 15000, 'helper_held': 3000, 'convention_held': 1500, 'suite:apply_algebra_lowering:held': 3000, 'suite:apply_algebra_lowering:held_and_changed': 500}}
 COVER_FLOORS = {
     "quick": {"operators": ["dot", "inner", "outer", "cross", "perp", "transpose", "tr", "det", "inv", "cofac", "dev", "skew", "sym", "div", "nabla_div", "nabla_grad", "curl"]},
     "thorough": {"operators": ["dot", "inner", "outer", "cross", "perp", "transpose", "tr", "det", "inv", "cofac", "dev", "skew", "sym", "div", "nabla_div", "nabla_grad", "curl"]},
@@ -149,8 +149,12 @@ def case(ctx, i, rng):
     op = OPS[i % len(OPS)] if rng.random() < 0.8 else rng.choice(OPS)
     diff = op in ("div", "nabla_div", "nabla_grad", "curl")
     G = Gen(U, rng, cplx=cplx, deriv=1 if diff else 0, geom=False, cond=rng.random() < 0.3, math=rng.random() < 0.5)
-    if rng.random() < 0.15:
+    r_ = rng.random()
+    if r_ < 0.15:
         helper_case(ctx, rng, U, G, cplx)
+        return
+    if r_ < 0.25:
+        convention_case(ctx, rng, U, G, cplx)
         return
     try:
         e, shapes = build(rng, U, G, op)
@@ -274,6 +278,63 @@ def helper_case(ctx, rng, U, G, cplx):
     if verdict == "violated":
         bad = next(v for v in vs if v.kind == "disagree")
         ctx.violation(f"C06/compound_expressions.{kind}/{shape[0]}x{shape[-1]}", f"{kind}_expr differs from the linear-algebra definition (err {bad.err}, {bad.why})", {"A": str(A)[:400], "out": str(out)[:600]})
+
+
+def convention_case(ctx, rng, U, G, cplx):
+    """inner / outer / dot through the public functions for every pairing of scalar and tensor operands, lowered, against
+    the documented conventions written in numpy: inner(a, b) = sum a conj(b), outer(a, b) = conj(a) (x) b (the FIRST operand
+    is conjugated), dot(a, b) = sum_k a[..., k] b[k, ...] without conjugation.  Construction-time shortcuts (a scalar
+    operand never produces an Inner / Outer / Dot node) are judged here, where S alone could not see them."""
+    kind = rng.choice(["inner", "outer", "outer", "dot"])
+    if kind == "inner":
+        sa = sb = rng.choice([(), (), (2,), (3,), (2, 2), (2, 3)])
+    elif kind == "outer":
+        sa = rng.choice([(), (2,), (3,), (2, 2)])
+        sb = rng.choice([(), (2,), (3,), (2, 3)])
+    else:
+        sa, sb = rng.choice([((), ()), ((), (2,)), ((3,), ()), ((2,), (2,)), ((2, 3), (3,)), ((2,), (2, 2)), ((2, 2), ())])
+    A = dense(G, U, rng, sa, True) if sa else G.expr((), 1)
+    Bx = dense(G, U, rng, sb, True) if sb else G.expr((), 1)
+    try:
+        e = getattr(ufl, kind)(A, Bx)
+        out = apply_algebra_lowering(e)
+    except Exception as ex:
+        ctx.count("convention_rejected")
+        ctx.covered("rejected_with", type(ex).__name__ + ":convention:" + kind)
+        return
+    worlds = oracle.worlds_for(rng, U.cell, U.gdim, "cell", cplx, n=3)
+
+    def ref(w, B):
+        ra, rb = S(A, w, B), S(Bx, w, B)
+        a, b = B.to_complex(ra.arr), B.to_complex(rb.arr)
+        if kind == "inner":
+            v = np.sum(a * np.conj(b))
+        elif kind == "outer":
+            v = np.multiply.outer(np.conj(a), b)
+        elif a.ndim == 0 or b.ndim == 0:
+            v = a * b
+        else:
+            v = np.tensordot(a, b, axes=([a.ndim - 1], [0]))
+        v = np.asarray(v, dtype=complex)
+        return Result(v, v.ndim, (), set(ra.flags) | set(rb.flags) | set(B.flags), max(ra.maxabs, rb.maxabs))
+
+    def got(w, B):
+        r = S(out, w, B)
+        r.arr = B.to_complex(r.arr)
+        return r
+
+    vs = [oracle.compare_once(ref, got, w) for w in worlds]
+    count_verdicts(ctx, vs, "convention_")
+    verdict = oracle.decide(vs)
+    ctx.count("convention_" + verdict)
+    if verdict == "held":
+        ctx.covered("conventions_held", f"{kind}:{len(sa)}x{len(sb)}")
+        ctx.add_distinct(("convention", kind, sa, sb, cplx))
+    if verdict == "violated":
+        bad = next(v for v in vs if v.kind == "disagree")
+        ctx.violation(f"C06/convention/{kind}/rank{len(sa)}-rank{len(sb)}" + ("/complex" if cplx else ""),
+                      f"{kind}(a, b) with operand shapes {sa}, {sb} does not have the documented value (err {bad.err}, {bad.why})",
+                      {"a": str(A)[:300], "b": str(Bx)[:300], "built": str(e)[:400], "lowered": str(out)[:500]})
 
 
 def _cofactor_np(a):
